@@ -287,6 +287,8 @@ class SymInt:
 
 
 _CVC5 = None
+import os as _os
+_DEBUG = bool(_os.environ.get("VERIF_DEBUG"))
 
 
 def _cvc5_bin():
@@ -331,6 +333,7 @@ def cvc5_verdict(assertions, extra, timeout_ms=4000):
 class Space:
     def __init__(self, seed=0):
         self.plan = []  # [decision, other side pending, condition hash]
+        self._dbg = {}
         self.stats = dict(
             paths=0, decisions=0, solver_calls=0, solver_s=0.0, aborted=0, infeasible=0,
             obligations=0, max_depth=0,
@@ -391,12 +394,17 @@ class Space:
         if self.pos < len(self.plan):
             d, _, ph = self.plan[self.pos]
             if ph != h:
-                raise Nondeterminism(f"decision {self.pos}: condition changed between executions")
+                dbg = ""
+                if _DEBUG:
+                    dbg = f" now={e.sexpr()[:120]!r} recorded={self._dbg.get(self.pos)!r}"
+                raise Nondeterminism(f"decision {self.pos}: condition changed between executions" + dbg)
             self.pos += 1
             self._add(e if d else z3.Not(e))
             self.model = None
             self.decided[eid] = d
             return d
+        if _DEBUG:
+            self._dbg[len(self.plan)] = e.sexpr()[:120]
         # new decision: the current model tells one feasible side for free
         m = self.get_model()
         side = z3.is_true(m.eval(e, model_completion=True))
